@@ -2,6 +2,7 @@ package checks
 
 import (
 	"fmt"
+	"regexp"
 
 	"github.com/hyperjumptech/grule-rule-engine/ast"
 	"strings"
@@ -49,6 +50,12 @@ func c08World(k, i int64) *ref.World {
 		f.Arr = []int64{1, 2, 3}
 	}
 	f.B = k >= 10
+	if k == 77 {
+		// the "clock" set: this fact is a little older than the moment of the call, and younger than every
+		// earlier call of the history (the harness pauses 2 ms before each such call)
+		time.Sleep(2 * time.Millisecond)
+		f.T = time.Now().Add(-time.Millisecond)
+	}
 	w.Objs["F"] = f
 	w.Objs["V"] = facts.New() // a result fact that rules only write to
 	return w
@@ -91,6 +98,15 @@ var c08Sets = []c08Set{
 		{"exec-i0", false, 0, 0, 10, 0}, {"exec-i1", false, 0, 1, 10, 0}, {"exec-k1", false, 1, 1, 10, 0}, {"exec-limit", false, 0, 0, 1, 0}, {"exec-cancel@4", false, 0, 0, 10, 4},
 		{"fetch-i1", true, 0, 1, 0, 0}, {"fetch-i0", true, 0, 0, 0, 0},
 	}},
+	{"clock", func() []*grl.Rule {
+		// Now() is variable-free but not constant: every call sees the clock of ITS moment
+		return []*grl.Rule{
+			grl.R("late", nil, "F.T < Now()", "F.I2 = 1", `Retract("late")`),
+			grl.R("early", grl.Sal(1), "F.T > Now()", "F.I = 1", `Retract("early")`),
+		}
+	}, []c08Call{
+		{"exec-clock", false, 77, 0, 5, 0}, {"fetch-clock", true, 77, 0, 0, 0}, {"exec-clock-limit", false, 77, 0, 1, 0},
+	}},
 	{"errors-after-success", func() []*grl.Rule {
 		return []*grl.Rule{
 			grl.R("por", nil, `(F.M["k"] > 1) || F.I2 == 7`, "F.I2 = F.I2 + 1", `Retract("por")`),
@@ -105,7 +121,15 @@ var c08Sets = []c08Set{
 }
 
 // c08Observe performs one call on kb and returns a canonical observation.
+var c08Stamp = regexp.MustCompile(`T:2\d{3}-[0-9T:.-]+Z`)
+
+// c08Observe performs one call on kb and returns a canonical observation (the wall-clock stamp of the
+// "clock" set's fact is masked: it differs from call to call by construction).
 func c08Observe(b *hx.Built, c c08Call, order int, kb *ast.KnowledgeBase) string {
+	return c08Stamp.ReplaceAllString(c08ObserveRaw(b, c, order, kb), "T:<stamp>")
+}
+
+func c08ObserveRaw(b *hx.Built, c c08Call, order int, kb *ast.KnowledgeBase) string {
 	w := c08World(c.k, c.i)
 	if c.fetch {
 		nperm := hx.NPerms(len(kb.RuleEntries))
@@ -253,7 +277,7 @@ func C08(rep *ev.Reporter, tier string) {
 		rep.Exhaustive = false
 		rep.Coverage["caps_hit"] = "time budget"
 	}
-	rep.Coverage["rule"] = fmt.Sprintf("every call history of length 2..%d over the call alphabet of each of 4 rule sets (the 4th has conditions that evaluate on some facts and fail with an error on others, parenthesised and shared between rules) (Execute ending normally / by Complete / by action error / at the cycle limit / by cancellation at poll p / after a rule retracted itself or another; FetchMatchingRules; each with its own facts; instance-level RemoveRuleEntry as a step between calls) under 3 static rule orders; states = histories, transitions = calls on the reused instance. Differential oracle: listener trace, return value and final facts of the n-th call on the reused instance equal those of the same call on a new instance. Every history has >=1 earlier call, so every one is non-trivial.", maxLen)
+	rep.Coverage["rule"] = fmt.Sprintf("every call history of length 2..%d over the call alphabet of each of 5 rule sets (one reads the clock through Now(), whose value belongs to the moment of each call; another has conditions that evaluate on some facts and fail with an error on others, parenthesised and shared between rules) (Execute ending normally / by Complete / by action error / at the cycle limit / by cancellation at poll p / after a rule retracted itself or another; FetchMatchingRules; each with its own facts; instance-level RemoveRuleEntry as a step between calls) under 3 static rule orders; states = histories, transitions = calls on the reused instance. Differential oracle: listener trace, return value and final facts of the n-th call on the reused instance equal those of the same call on a new instance. Every history has >=1 earlier call, so every one is non-trivial.", maxLen)
 }
 
 func lastOf(s []string) string {
